@@ -285,6 +285,9 @@ func c02Seq(tier string) []SeqJob {
 			alpha = append(alpha, Op{K: "set", Key: k, Cost: 1}, Op{K: "del", Key: k}, Op{K: "setttl", Key: k, Cost: 1, TTL: 1000})
 		}
 		alpha = append(alpha, Op{K: "clear"}, Op{K: "advance", N: 2000}, Op{K: "sweep"}, Op{K: "drain"})
+		// an item larger than the whole cache, as a new key and as an overwrite of a resident one:
+		// however the cache lets go of it, it must not serve it afterwards
+		alpha = append(alpha, Op{K: "set", Key: keys[0], Cost: 3})
 		spec := &SeqSpec{Cfg: Cfg{NumCounters: 16, MaxCost: 2, BufferItems: 2, SetBuf: sb, KeyHash: hash, TTLTick: 2, BucketSecs: 1}, MaxDepth: depth,
 			Alphabet: func(r *SeqRun) []Op { return alpha },
 			Oracle: func(r *SeqRun) []Viol {
